@@ -206,6 +206,26 @@ func registerHarnesses() {
 				}}
 		}
 	}
+	// C17: Merge concurrent with writers of a set and a sorted set (adds only: a concurrent remove is
+	// undone by Merge's rewrite, which is the known non-isolation finding) and a reader of them
+	harnesses["C17/merge-structs/KV"] = func() *harness {
+		return &harness{name: "C17s", cfg: core.Cfg{Mode: core.KV, Seg: 100}, ndb: 1, classes: classesFor(core.KV),
+			setup: []core.Op{up(put("k1", "x")), up(core.Call{F: "SAdd", B: bS, K: "k", Vs: []string{"m"}}), up(core.Call{F: "ZAdd", B: bZ, K: "a", X: 1, V: "va"}), up(put("k1", "y"))},
+			queries: append(kvQueries("k1"), core.Call{F: "SMembers", B: bS, K: "k"}, core.Call{F: "ZMembers", B: bZ}, core.Call{F: "SIsMember", B: bS, K: "k", V: "n"}),
+			threads: []hthread{
+				{name: "M", kind: "merge"},
+				{name: "W", kind: "update", body: func(do func(core.Call) core.Res, yield func()) error {
+					do(core.Call{F: "SAdd", B: bS, K: "k", Vs: []string{"n"}})
+					do(core.Call{F: "ZAdd", B: bZ, K: "b", X: 2, V: "vb"})
+					return nil
+				}},
+				{name: "R", kind: "view", body: func(do func(core.Call) core.Res, yield func()) error {
+					do(core.Call{F: "SIsMember", B: bS, K: "k", V: "n"})
+					do(core.Call{F: "ZScore", B: bZ, K: "b"})
+					return nil
+				}},
+			}}
+	}
 	// C18: Backup concurrent with two writers whose records land in different segments
 	for _, mr := range [][2]int{{core.KV, core.F}, {core.K, core.F}, {core.S, core.F}, {core.KV, core.M}, {core.K, core.M}} {
 		mode, rw := mr[0], mr[1]
